@@ -1,6 +1,6 @@
 """Enumerator of reduced-form indexed grammars IG(N, F, r): non-terminals S,A,B (0,1,2), indices f,g, one terminal a,
 every set of <= r rules.  Case: (rules,) with rules a sorted tuple of rule tuples over indexes:
-  (0, A, -)      end rule  A -> a
+  (0, A, e, 0)   end rule  A -> a (e = 0) / A -> epsilon (e = 1)
   (1, A, B, f)   production A -> B[f]
   (2, f, A, B)   consumption A[f] -> B
   (3, A, B, C)   duplication A -> B C
@@ -12,7 +12,7 @@ IX = ["f", "g"]
 
 
 def candidates(n=3, k=2):
-    out = [(0, A, 0, 0) for A in range(n)]
+    out = [(0, A, e, 0) for A in range(n) for e in (0, 1)]      # e = 1: end rule A -> epsilon
     out += [(1, A, B, f) for A in range(n) for B in range(n) for f in range(k)]
     out += [(2, f, A, B) for f in range(k) for A in range(n) for B in range(n)]
     out += [(3, A, B, C) for A in range(n) for B in range(n) for C in range(n)]
@@ -29,7 +29,7 @@ def ig_cases(rmin, rmax, n=3, k=2):
 def _map(rule, np, fp):
     t = rule[0]
     if t == 0:
-        return (0, np[rule[1]], 0, 0)
+        return (0, np[rule[1]], rule[2], 0)
     if t == 1:
         return (1, np[rule[1]], np[rule[2]], fp[rule[3]])
     if t == 2:
@@ -56,7 +56,7 @@ def ref_rules(case):
     out = []
     for r in case[0]:
         if r[0] == 0:
-            out.append(("end", NT[r[1]], "a"))
+            out.append(("end", NT[r[1]], "epsilon" if r[2] else "a"))
         elif r[0] == 1:
             out.append(("prod", NT[r[1]], NT[r[2]], IX[r[3]]))
         elif r[0] == 2:
